@@ -225,6 +225,47 @@ def _index_type_instances():
     for lit in ("4u", "4U", "7l", "0x4u", "04u", "9ul", "4LL", "100u"):
         for cont, acc in (("int[4] a", "a[{0}]"), ("int[2][4] a", "a[1][{0}]"), ("float4 a", "a[{0}]"), ("float3x3 a", "a[{0}][0]"), ("float3x3 a", "a[0][{0}]")):
             out.append(dict(part="index-type", src=f"export function f() -> void {{ {cont}; {acc.format(lit)}; }}", expect=False))
+    # a name that is declared again with another type in a later scope (sibling blocks, loop headers, branches, another function): every
+    # access is judged by the declaration visible at that place, whatever the name meant before
+    def rebind(first, second, kind):
+        return {
+            "blocks": f"export function f() -> void {{ {{ {first} }} {{ {second} }} }}",
+            "loop bodies": f"export function f(int n) -> void {{ while (n > 0) {{ {first} n = n - 1; }} do {{ {second} n = n + 1; }} while (n < 2) }}",
+            "branches": f"export function f(int n) -> void {{ if (n > 0) {{ {first} }} else {{ {second} }} }}",
+            "functions": f"function h() -> void {{ {first} }}\nexport function f() -> void {{ {second} }}",
+            "after a for loop": f"export function f() -> void {{ for (int k = 0; k < 2; ++k) {{ {first} }} {second} }}",
+        }[kind]
+    pairs = [("float4 v; v.w;", "float2 v; v.w;", False, "swizzle"), ("float2 v; v.y;", "float4 v; v.w;", True, "swizzle"), ("float4 v; v.rgb;", "float2 v; v.rgb;", False, "swizzle"),
+             ("int[5] a; a[4];", "int[2] a; a[4];", False, "bounds"), ("int[2] a; a[1];", "int[5] a; a[4];", True, "bounds"), ("float4 a; a[3];", "float3 a; a[3];", False, "bounds"),
+             ("float4x4 a; a[3][3];", "float3x3 a; a[3][0];", False, "bounds"), ("int[4] a; int i; a[i];", "int[4] a; float i; a[i];", False, "index type"),
+             ("int[4] a; float i; i = 1.0;", "int[4] a; int i; a[i];", True, "index type"), ("int[2][3] a; a[1][2];", "int[3][2] a; a[1][2];", False, "bounds")]
+    for first, second, ok, what in pairs:
+        for kind in ("blocks", "loop bodies", "branches", "functions", "after a for loop"):
+            out.append(dict(part="index-type", src=rebind(first, second, kind), expect=ok, label=f"{what}: name declared again with another type ({kind})"))
+    # ... also when the earlier declaration sits in a loop header
+    out.append(dict(part="index-type", src="export function f() -> void { int[4] a; for (int i = 0; i < 2; ++i) { a[i]; } for (float i = 0.0; i < 2.0; i = i + 1.0) { a[i]; } }", expect=False,
+                    label="index type: loop variable declared again as float"))
+    out.append(dict(part="index-type", src="export function f() -> void { int[4] a; for (float i = 0.0; i < 2.0; i = i + 1.0) { } for (int i = 0; i < 2; ++i) { a[i]; } }", expect=True,
+                    label="index type: loop variable declared again as int"))
+    out.append(dict(part="index-type", src="export function f() -> void { for (float4 v = float4(0.0, 0.0, 0.0, 0.0); v.x < 1.0; v.x = v.x + 1.0) { v.w; } "
+                                           "for (float2 v = float2(0.0, 0.0); v.x < 1.0; v.x = v.x + 1.0) { v.w; } }", expect=False, label="swizzle: loop variable declared again with fewer components"))
+    out.append(dict(part="index-type", src="export function f() -> void { for (float2 v = float2(0.0, 0.0); v.x < 1.0; v.x = v.x + 1.0) { v.y; } "
+                                           "for (float4 v = float4(0.0, 0.0, 0.0, 0.0); v.x < 1.0; v.x = v.x + 1.0) { v.w; } }", expect=True, label="swizzle: loop variable declared again with more components"))
+    out.append(dict(part="index-type", src="export function f() -> void { float4 r; for (int[5] a; r.x < 1.0; r.x = r.x + 1.0) { a[4]; } for (int[2] a; r.x < 2.0; r.x = r.x + 1.0) { a[4]; } }", expect=False,
+                    label="bounds: loop variable declared again with a smaller extent", may_reject_both=True))
+    # a swizzle anywhere inside an access chain or expression is checked against the vector it is applied to
+    S = "struct S { float4[2] rows; float2 uv; }\nfunction h(float a) -> float { return a; }\n"
+    ctxs = [("iv", "float4[2] arr; arr[iv.{M}];"), ("iv", "float4[2] arr; arr[iv.{M}].x;"), ("iv", "float4[2] arr; arr[iv.{M}].wzyx.x;"), ("iv", "s.rows[iv.{M}].x;"), ("iv", "s.rows[iv.{M}].zyx.x;"),
+            ("iv", "float3x3 m; m[iv.{M}][0];"), ("iv", "float3x3 m; m[0][iv.{M}];"), ("iv", "float4[2] arr; arr[iv.{M}][1];"), ("iv", "float4[2] arr; arr[iv.x][iv.{M}];"),
+            ("fv", "float q; q = fv.{M} + 1.0;"), ("fv", "if (fv.{M} > 0.0) {{ }}"), ("fv", "float2 t = float2(fv.{M}, 1.0);"), ("fv", "float q = h(fv.{M});"), ("fv", "fv.{M} = 1.0;"),
+            ("fv", "float4[2] arr; arr[0].x = fv.{M};"), ("fv", "while (fv.{M} > 1.0) {{ fv.x = 0.0; }}"), ("fv", "float q = s.uv.x * fv.{M};")]
+    for n in (2, 3, 4):
+        for var, stmt in ctxs:
+            for M in "xyzwrgbaq":
+                src = S + f"export function f(int{n} iv, float{n} fv, S s) -> void {{ {stmt.format(M=M)} }}"
+                out.append(dict(part="index-type", src=src, expect=swizzle_spec(M, n), label=f"swizzle .{M} on a {n}-vector inside `{stmt}`"))
+    for M in "xyzwrgbaq":
+        out.append(dict(part="index-type", src=S + f"export function f(S s) -> void {{ s.uv.{M}; s.rows[1].{M}; }}", expect=swizzle_spec(M, 2), label=f"swizzle .{M} on struct members"))
     # a compiler object that is used for several texts: each text is judged on its own (functions not exported, distinct names)
     seqs = [
         ("function s{0}(int   i) -> void {{ int[4] a; a[i]; }}", "function s{0}(float i) -> void {{ int[4] a; a[i]; }}", "index type after an accepted text of the same layout"),
